@@ -64,6 +64,18 @@ public:
     }
     template<typename Derived, size_t OTHER_DIMS, enable_if_t_<!requires_evaluation_v<Derived>,bool> = false>
     void operator=(const AbstractTensor<Derived,OTHER_DIMS> &src) {
+#if !(FASTOR_NO_ALIAS)
+        if (_does_alias) {
+            _does_alias = false;
+            // Evaluate the right hand side on the original contents first
+            Tensor<T,Rest...> tmp;
+            for (FASTOR_INDEX i = 0; i <size(); i++) {
+                tmp.data()[i] = src.self().template eval_s<T>(i);
+            }
+            this->operator=(tmp);
+            return;
+        }
+#endif
 #ifndef NDEBUG
         FASTOR_ASSERT(src.self().size()==this->size(), "TENSOR SIZE MISMATCH");
         // Check if shape of tensors match
@@ -85,6 +97,18 @@ public:
     }
     template<typename Derived, size_t OTHER_DIMS, enable_if_t_<!requires_evaluation_v<Derived>,bool> = false>
     void operator+=(const AbstractTensor<Derived,OTHER_DIMS> &src) {
+#if !(FASTOR_NO_ALIAS)
+        if (_does_alias) {
+            _does_alias = false;
+            // Evaluate the right hand side on the original contents first
+            Tensor<T,Rest...> tmp;
+            for (FASTOR_INDEX i = 0; i <size(); i++) {
+                tmp.data()[i] = src.self().template eval_s<T>(i);
+            }
+            this->operator+=(tmp);
+            return;
+        }
+#endif
 #ifndef NDEBUG
         FASTOR_ASSERT(src.self().size()==this->size(), "TENSOR SIZE MISMATCH");
         // Check if shape of tensors match
@@ -106,6 +130,18 @@ public:
     }
     template<typename Derived, size_t OTHER_DIMS, enable_if_t_<!requires_evaluation_v<Derived>,bool> = false>
     void operator-=(const AbstractTensor<Derived,OTHER_DIMS> &src) {
+#if !(FASTOR_NO_ALIAS)
+        if (_does_alias) {
+            _does_alias = false;
+            // Evaluate the right hand side on the original contents first
+            Tensor<T,Rest...> tmp;
+            for (FASTOR_INDEX i = 0; i <size(); i++) {
+                tmp.data()[i] = src.self().template eval_s<T>(i);
+            }
+            this->operator-=(tmp);
+            return;
+        }
+#endif
 #ifndef NDEBUG
         FASTOR_ASSERT(src.self().size()==this->size(), "TENSOR SIZE MISMATCH");
         // Check if shape of tensors match
@@ -127,6 +163,18 @@ public:
     }
     template<typename Derived, size_t OTHER_DIMS, enable_if_t_<!requires_evaluation_v<Derived>,bool> = false>
     void operator*=(const AbstractTensor<Derived,OTHER_DIMS> &src) {
+#if !(FASTOR_NO_ALIAS)
+        if (_does_alias) {
+            _does_alias = false;
+            // Evaluate the right hand side on the original contents first
+            Tensor<T,Rest...> tmp;
+            for (FASTOR_INDEX i = 0; i <size(); i++) {
+                tmp.data()[i] = src.self().template eval_s<T>(i);
+            }
+            this->operator*=(tmp);
+            return;
+        }
+#endif
 #ifndef NDEBUG
         FASTOR_ASSERT(src.self().size()==this->size(), "TENSOR SIZE MISMATCH");
         // Check if shape of tensors match
@@ -148,6 +196,18 @@ public:
     }
     template<typename Derived, size_t OTHER_DIMS, enable_if_t_<!requires_evaluation_v<Derived>,bool> = false>
     void operator/=(const AbstractTensor<Derived,OTHER_DIMS> &src) {
+#if !(FASTOR_NO_ALIAS)
+        if (_does_alias) {
+            _does_alias = false;
+            // Evaluate the right hand side on the original contents first
+            Tensor<T,Rest...> tmp;
+            for (FASTOR_INDEX i = 0; i <size(); i++) {
+                tmp.data()[i] = src.self().template eval_s<T>(i);
+            }
+            this->operator/=(tmp);
+            return;
+        }
+#endif
 #ifndef NDEBUG
         FASTOR_ASSERT(src.self().size()==this->size(), "TENSOR SIZE MISMATCH");
         // Check if shape of tensors match
